@@ -97,6 +97,62 @@ fn inflate_family(bases: &[Based]) -> InputFam {
     }
 }
 
+
+/// all size / count fields of two entities (the file header, or one chunk) inflated together
+fn entity_pairs(bases: &[Based]) -> InputFam {
+    let mut idx: Vec<(u16, u32, u32, u32, u32, u8)> = Vec::new(); // base, (frame,chunk) a, (frame,chunk) b, value kind
+    let mut all: Vec<(String, Arc<Vec<u8>>, Arc<Vec<Field>>)> = Vec::new();
+    for (bi, b) in bases.iter().enumerate() {
+        if b.bytes.len() > 100_000 {
+            all.push((b.name.clone(), Arc::new(vec![]), Arc::new(vec![])));
+            continue;
+        }
+        let sized: Vec<Field> = b.fields.iter().filter(|f| matches!(f.role, Role::Size | Role::Count) && f.name != "file_size" && f.name != "frame_size" && f.name != "chunk_size" && f.name != "frames" && f.name != "old_chunks" && f.name != "new_chunks").cloned().collect();
+        let mut ents: Vec<(u32, u32)> = sized.iter().map(|f| (f.frame, f.chunk)).collect();
+        ents.sort();
+        ents.dedup();
+        for i in 0..ents.len() {
+            for j in i..ents.len() {
+                for kind in 0..3u8 {
+                    idx.push((bi as u16, ents[i].0, ents[i].1, ents[j].0, ents[j].1, kind));
+                }
+            }
+        }
+        all.push((b.name.clone(), Arc::new(b.bytes.clone()), Arc::new(sized)));
+    }
+    let idx = Arc::new(idx);
+    let all = Arc::new(all);
+    let (i2, a2) = (idx.clone(), all.clone());
+    let (i3, a3) = (idx.clone(), all.clone());
+    let value = |f: &Field, kind: u8| -> u64 {
+        let m = if f.width == 1 { 255u64 } else if f.width == 2 { 65535 } else { 0xFFFF_FFFF };
+        match kind {
+            0 => m,
+            1 => 16384.min(m),
+            _ => m / 2 + 1,
+        }
+    };
+    let ent_name = |e: (u32, u32)| if e.0 == u32::MAX { "header".to_string() } else { format!("frame[{}].chunk[{}]", e.0, e.1) };
+    InputFam {
+        name: "inflate-entities".into(),
+        what: "b1..b4 and D1 (indexed): for every entity (the file header, or one chunk) and every pair of entities, ALL size and count fields of those entities set together to the type maximum / 16384 / max/2+1 (e.g. canvas width and height and a cel's width and height at once), payloads unchanged".into(),
+        n: idx.len(),
+        gen: Box::new(move |k| {
+            let (bi, af, ac, bf, bc, kind) = i2[k];
+            let (_, bytes, sized) = &a2[bi as usize];
+            let mut v = bytes.to_vec();
+            for f in sized.iter().filter(|f| (f.frame, f.chunk) == (af, ac) || (f.frame, f.chunk) == (bf, bc)) {
+                v = patchv(&v, f, value(f, kind));
+            }
+            v
+        }),
+        label: Box::new(move |k| {
+            let (bi, af, ac, bf, bc, kind) = i3[k];
+            format!("{} all sizes of {} and {} := {}", a3[bi as usize].0, ent_name((af, ac)), ent_name((bf, bc)), ["max", "16384", "max/2+1"][kind as usize])
+        }),
+    }
+}
+
 fn bombs(thorough: bool) -> InputFam {
     let mut makers: Vec<(String, Box<dyn Fn() -> Vec<u8> + Sync + Send>)> = Vec::new();
     let sizes: Vec<usize> = if thorough { vec![1 << 20, 16 << 20, 64 << 20, 512 << 20] } else { vec![1 << 20, 16 << 20, 64 << 20] };
@@ -359,7 +415,7 @@ fn cross_load(ctx: &Ctx, worst: &AtomicU64) {
 pub fn run(ctx: &Ctx) -> i32 {
     let thorough = ctx.tier == Tier::Thorough;
     let bases = based_files(false);
-    let mut fams: Vec<InputFam> = vec![inflate_family(&bases), bombs(thorough), dense(thorough), links_to_big(thorough)];
+    let mut fams: Vec<InputFam> = vec![inflate_family(&bases), entity_pairs(&bases), bombs(thorough), dense(thorough), links_to_big(thorough)];
     // the C04 corruption families under the memory oracle as well (byte sweeps only in thorough)
     for f in all_families(ctx.tier) {
         if (f.name.starts_with("M1") && !thorough) || f.name == "M2-structural-big" {
